@@ -8,6 +8,7 @@ MAC = "LogMacros.h"
 PFH = "backend/PatternFormatter.h"
 TFH = "backend/TimestampFormatter.h"
 SFH = "backend/StringFromTime.h"
+RSH = "sinks/RotatingSink.h"
 CASES = [
  # ---------------- C01
  dict(name="c01-commit_write-relaxed", ids=["C01"], rule="C01.R1b", subs=[(B, "_atomic_writer_pos.store(_writer_pos, std::memory_order_release)", "_atomic_writer_pos.store(_writer_pos, std::memory_order_relaxed)")]),
@@ -781,4 +782,104 @@ CASES = [
  dict(name="c13-k-zero-padded", ids=["C13"], rule="C13.R2c", subs=[(SFH, 'fmtquill::format_to(&_pre_formatted_ts[index.first], "{:2}", hours);', 'fmtquill::format_to(&_pre_formatted_ts[index.first], "{:3}", hours);')]),
  dict(name="c13-fraction-left-aligned", ids=["C13"], rule="C13.R1f", subs=[(TFH, "memcpy(&_formatted_date[_formatted_date.size() - extracted_ms_string.size()],", "memcpy(&_formatted_date[_formatted_date.size() - 9],")]),
  dict(name="c13-modifier-missing-from-split", ids=["C13"], rule="C13.R2a", subs=[(SFH, 'std::array<std::string, 7> const modifiers{"%H", "%M", "%S", "%I", "%k", "%l", "%s"};', 'std::array<std::string, 6> const modifiers{"%H", "%M", "%S", "%I", "%k", "%s"};')]),
+
+ # ---------------- C14
+ dict(name="c14-file_size-not-reset", ids=["C14"], rule="C14.R2e", subs=[(RSH, "    _open_file_timestamp = record_timestamp_ns;\n    _file_size = 0;", "    _open_file_timestamp = record_timestamp_ns;")]),
+ dict(name="c14-size-accounting-before-rotation", ids=["C14"], rule="C14.R1d", subs=[(RSH, """    bool time_rotation = false;
+""", """    bool time_rotation = false;
+    _file_size += log_statement.size();
+"""), (RSH, """                          named_args, log_message, log_statement);
+
+    _file_size += log_statement.size();
+  }""", """                          named_args, log_message, log_statement);
+  }""")]),
+ dict(name="c14-rename-before-close", ids=["C14"], rule="C14.R2", subs=[(RSH, """    this->close_file();
+
+    // datetime_suffix will be empty""", """    // datetime_suffix will be empty"""), (RSH, """    // Check if we have too many files in the queue remove_file the oldest one
+    if (_created_files.size() > _config.max_backup_files())""", """    this->close_file();
+    if (_created_files.size() > _config.max_backup_files())""")]),
+ dict(name="c14-remove-without-bound", ids=["C14"], rule="C14.R3a", subs=[(RSH, """    // Check if we have too many files in the queue remove_file the oldest one
+    if (_created_files.size() > _config.max_backup_files())""", """    if (_created_files.size() > 1)""")]),
+ dict(name="c14-early-return-after-close", ids=["C14"], rule="C14.R2a", subs=[(RSH, """    if (_get_file_size(this->_filename) <= 0)
+    {
+      // Also check the file size is > 0  to better deal with full disk
+      return;
+    }
+
+    this->close_file();
+""", """    this->close_file();
+
+    if (_get_file_size(this->_filename) <= 0)
+    {
+      return;
+    }
+""")]),
+ dict(name="c14-removes-newest", ids=["C14"], rule="C14.R3b", subs=[(RSH, """      fs::path const removed_file = _get_filename(
+        _created_files.back().base_filename, _created_files.back().index, _created_files.back().date_time);""", """      fs::path const removed_file = _get_filename(
+        _created_files.front().base_filename, _created_files.front().index, _created_files.front().date_time);""")]),
+ dict(name="c14-rename-newest-first", ids=["C14"], rule="C14.R4", subs=[(RSH, "for (auto it = _created_files.rbegin(); it != _created_files.rend(); ++it)", "for (auto it = _created_files.begin(); it != _created_files.end(); ++it)")]),
+ dict(name="c14-size-test-ignores-statement", ids=["C14"], rule="C14.R1f", subs=[(RSH, "if (_file_size + log_msg_size > _config.rotation_max_file_size())", "if (_file_size > _config.rotation_max_file_size())")]),
+ dict(name="c14-stop-deletes-anyway", ids=["C14"], rule="C14.R3", subs=[(RSH, """      // We have reached the max number of backup files, and we are not allowed to overwrite the
+      // oldest file. We will stop rotating
+      return;
+    }
+""", """      _remove_file(_get_filename(_created_files.back().base_filename, _created_files.back().index, _created_files.back().date_time));
+      return;
+    }
+""")]),
+ dict(name="c14-double-write-on-rotation", ids=["C14"], rule="C14.R1a", subs=[(RSH, """      time_rotation = _time_rotation(log_timestamp);
+    }
+""", """      time_rotation = _time_rotation(log_timestamp);
+      if (time_rotation) { base_type::write_log(log_metadata, log_timestamp, thread_id, thread_name, process_id, logger_name, log_level, log_level_description, log_level_short_code, named_args, log_message, log_statement); }
+    }
+""")]),
+ # ---------------- C15
+ dict(name="c15-prefix-next-from-record", ids=["C15"], rule="C15.R1c2", subs=[(RSH, """      do
+      {
+        _next_rotation_time = _calculate_rotation_tp(_next_rotation_time, _config);
+      } while (_next_rotation_time <= record_timestamp_ns);
+""", """      _next_rotation_time = _calculate_rotation_tp(record_timestamp_ns, _config);
+""")]),
+ dict(name="c15-advance-once-only", ids=["C15"], rule="C15.R1c2", subs=[(RSH, """      do
+      {
+        _next_rotation_time = _calculate_rotation_tp(_next_rotation_time, _config);
+      } while (_next_rotation_time <= record_timestamp_ns);
+""", """      _next_rotation_time = _calculate_rotation_tp(_next_rotation_time, _config);
+""")]),
+ dict(name="c15-size-rotation-also-when-time-rotated", ids=["C15"], rule="C15.R1b", subs=[(RSH, "if (!time_rotation && _config.rotation_max_file_size() != 0)", "if (_config.rotation_max_file_size() != 0)")]),
+ dict(name="c15-next-rotation-not-updated", ids=["C15"], rule="C15.R1c2", subs=[(RSH, """      do
+      {
+        _next_rotation_time = _calculate_rotation_tp(_next_rotation_time, _config);
+      } while (_next_rotation_time <= record_timestamp_ns);
+""", "")]),
+ dict(name="c15-hourly-arm-missing", ids=["C15"], rule="C15.R2a", subs=[(RSH, """    if (config.rotation_frequency() == RotatingFileSinkConfig::RotationFrequency::Hourly)
+    {
+      return rotation_timestamp_ns +
+        static_cast<uint64_t>(
+               std::chrono::nanoseconds{std::chrono::hours{config.rotation_interval()}}.count());
+    }
+""", "")]),
+ dict(name="c15-strictly-after-point", ids=["C15"], rule="C15.R1c1", subs=[(RSH, "    if (record_timestamp_ns >= _next_rotation_time)", "    if (record_timestamp_ns > _next_rotation_time)")]),
+ dict(name="c15-suffix-from-record-time", ids=["C15"], rule="C15.R1d", subs=[(RSH, 'this->format_datetime_string(_open_file_timestamp, _config.timezone(), "%Y%m%d");', 'this->format_datetime_string(record_timestamp_ns, _config.timezone(), "%Y%m%d");')]),
+ dict(name="c15-time-check-after-write", ids=["C15"], rule="C15.R1a", subs=[(RSH, """    if (_config.rotation_frequency() != RotatingFileSinkConfig::RotationFrequency::Disabled)
+    {
+      // Check if we need to rotate based on time
+      time_rotation = _time_rotation(log_timestamp);
+    }
+""", ""), (RSH, """                          named_args, log_message, log_statement);
+
+    _file_size += log_statement.size();
+  }""", """                          named_args, log_message, log_statement);
+
+    _file_size += log_statement.size();
+    if (_config.rotation_frequency() != RotatingFileSinkConfig::RotationFrequency::Disabled)
+    {
+      time_rotation = _time_rotation(log_timestamp);
+    }
+  }""")]),
+ dict(name="c15-zero-interval-accepted", ids=["C15"], rule="C15.R2d", subs=[(RSH, """    if (interval == 0)
+    {
+      QUILL_THROW(QuillError{"interval must be set to a value greater than 0"});
+    }
+""", "")]),
 ]
